@@ -195,6 +195,17 @@ fn exhaustive(max_n: u32) -> impl Iterator<Item = Vec<Gene>> {
     })
 }
 
+fn opener2() -> impl Strategy<Value = Gene> {
+    prop::sample::select(vec![ExecOp::When, ExecOp::Unless, ExecOp::DupBlock, ExecOp::IfElse]).prop_map(|o| Gene::I(Ins::Exec(o)))
+}
+fn g2() -> impl Strategy<Value = Gene> {
+    prop_oneof![
+        2 => Just(Gene::Close),
+        3 => (0i64..1000).prop_map(|k| Gene::I(Ins::PushInt(k))),
+        1 => opener2(),
+    ]
+}
+
 fn random_genes(t: &Tables, max: usize) -> BoxedStrategy<Vec<Gene>> {
     let ops = t.all_ops();
     let g = prop_oneof![
@@ -214,6 +225,16 @@ fn random_genes(t: &Tables, max: usize) -> BoxedStrategy<Vec<Gene>> {
         1 => (prop::collection::vec(opener, 0..=max), prop::collection::vec(Just(Gene::Close), 0..8)).prop_map(|(mut a, b)| { a.extend(b); a }),
         // all-close runs
         1 => prop::collection::vec(Just(Gene::Close), 0..=max),
+        // a deep nest, closed most or all of the way back, and then the genome goes on: whatever
+        // handles depth differently beyond some level has to hand control back correctly
+        2 => (prop::collection::vec(opener2(), 0..=max), 0usize..=max + 3, prop::collection::vec(g2(), 0..12), any::<u8>()).prop_map(|(mut a, closes, tail, keep)| {
+            // close all the way, or leave 0..255 levels open
+            let depth = a.len();
+            let closes = if keep % 3 == 0 { closes.min(depth + 3) } else { depth.saturating_sub(usize::from(keep)) };
+            a.extend(std::iter::repeat_n(Gene::Close, closes));
+            a.extend(tail);
+            a
+        }),
     ]
     .boxed()
 }
@@ -221,7 +242,7 @@ fn random_genes(t: &Tables, max: usize) -> BoxedStrategy<Vec<Gene>> {
 pub fn run(ctx: &mut Ctx) {
     let t = Tables::build();
     let (max_n, n_random, max_len) = ctx.tier.pick((8u32, 60_000u32, 2_000usize), (10, 1_500_000, 2_000));
-    ctx.rule = format!("exhaustive: all 4^n sequences over gene classes {{close, 0-open literal, 1-open (When/Unless/DupBlock), 2-open (IfElse)}} for n <= {max_n}; random: sequences up to {max_len} genes over the full instruction set incl. all-opener runs (depth = length) and all-close runs. Oracles: depth-first reading = genome order; k blocks directly after every k-opener and no other block; equality with an independent iterative reference parser. non-trivial = contains an opener and a close; distinct by JSON encoding");
+    ctx.rule = format!("exhaustive: all 4^n sequences over gene classes {{close, 0-open literal, 1-open (When/Unless/DupBlock), 2-open (IfElse)}} for n <= {max_n}; random: sequences up to {max_len} genes over the full instruction set incl. all-opener runs (depth = length), all-close runs, and deep nests that are closed (almost) all the way back before the genome goes on. Oracles: depth-first reading = genome order; k blocks directly after every k-opener and no other block; equality with an independent iterative reference parser. non-trivial = contains an opener and a close; distinct by JSON encoding");
     ctx.exhaustive = Some(true);
     ctx.extra.insert("exhaustive_scope".into(), serde_json::json!(format!("all class sequences of length <= {max_n} (the random sub-check is not exhaustive)")));
     ctx.run_cases("exhaustive_small_scope", exhaustive(max_n), |g, p| oracle(&t, g, p));
